@@ -15,7 +15,7 @@
 #include "os_stubs.h"
 #include <sys/stat.h>
 
-int g_open_rings, g_close_calls, g_reads;
+int g_open_rings, g_close_calls, g_reads, g_close_unlinks;
 off_t g_file_size;
 uint32_t g_hdr[5];           /* header words of the file (arbitrary, or those written by write_to_file) */
 uint32_t g_written[5];
@@ -48,7 +48,7 @@ static ssize_t verif_write(int fd, const void *buf, size_t count)
 }
 static int32_t verif_qb_rb_close_helper(struct qb_ringbuffer_s *rb, int32_t unlink_it, int32_t truncate_fallback)
 {
-	g_close_calls++; g_open_rings--;
+	g_close_calls++; g_open_rings--; g_close_unlinks = unlink_it;
 	return 0;
 }
 static void verif_print_header_sink(void) { }
@@ -60,7 +60,7 @@ static void verif_print_header_sink(void) { }
 
 void harness(void)
 {
-	g_open_rings = 1; g_close_calls = 0;   /* ledger: 1 = the ring qb_rb_open may create is accounted as open on success */
+	g_open_rings = 1; g_close_calls = 0; g_close_unlinks = 0;   /* ledger: 1 = the ring qb_rb_open may create is accounted as open on success */
 	verif_open_files = 0; g_reads = 0; g_writes = 0;
 #ifdef V_ANYFILE
 	VERIF_ND(int64_t, nd_fsize);
@@ -91,6 +91,11 @@ void harness(void)
 		COVER(g_reads >= 5);
 		COVER(g_reads < 3);
 		POST(g_close_calls <= 1, "a temporary ring is closed at most once");
+		if (g_reads >= 6) {
+			/* the sixth read is the data read: it only happens after the temporary ring was created */
+			COVER(1);
+			POST(g_close_calls == 1 && g_close_unlinks, "a load that fails after the temporary ring was created closes and unlinks it: no temporary shared-memory files are left behind");
+		}
 #ifdef V_ROUNDTRIP
 		POST(g_close_calls > 0 || g_reads < 6 || 1, "round trip may only fail through the environment");
 #endif
